@@ -297,6 +297,10 @@ func init() {
 			r.Try(func() { ruleDescriptorImmutable(w, r, "R01.13") })
 			r.Rule("R01.14", 1, "the descriptors derived for one constructor are registered all or none (a partly registered family makes the constructor run for the part and store the rest over other registrations)")
 			r.Try(func() { ruleFamilyRegisteredWhole(w, r, "R01.14") })
+			r.Rule("R01.15", 3, "group members keep distinct instance keys: a member's key is its position at insertion, so a group only grows by append and every writer keeps the three views in step (a member removed from the middle makes the next one reuse a live key: two registrations, one instance)")
+			r.Try(func() { reexport(w, r, "R01.15", func(sub *Report) { checkC17(w, sub) }, "R17.1", "R17.3") })
+			r.Rule("R01.16", 1, "every singleton the provider knows was constructed at Build: graph, eager creation order and the registry snapshot come from one critical section of the collection")
+			r.Try(func() { ruleBuildOneCriticalSection(w, r, "R01.16") })
 			r.Rule("R01.10", 1, "only scoped result-less registrations enter the list of per-scope initializers (a singleton initializer in it would run again for every scope)")
 			r.Try(func() { ruleInitializerListMembership(w, r, "R01.10") })
 		})
@@ -321,7 +325,7 @@ func init() {
 			r.Try(func() { ruleInitializersOnce(w, r, "R02.6") })
 			r.Try(func() { ruleEntryPointsStoreNothing(w, r, "R02.7") })
 			sub := NewReport(r.Prop, r.Tier, w)
-			for _, id := range []string{"R07.1", "R07.2", "R07.3", "R07.4", "R07.5", "R07.6", "R07.7", "R07.8", "R07.9"} {
+			for _, id := range []string{"R07.1", "R07.2", "R07.3", "R07.4", "R07.5", "R07.6", "R07.7", "R07.8", "R07.9", "R07.10", "R07.11"} {
 				sub.Rule(id, 0, "")
 			}
 			r.Try(func() { checkC07(w, sub) })
@@ -376,6 +380,8 @@ func init() {
 			r.Try(func() { ruleGroupResolvedPerCall(w, r, "R03.8") })
 			r.Rule("R03.9", 2, "one argument resolution per constructor call: no call site between createInstance and reflect.Value.Call is repeated by a loop that does not resolve the arguments again")
 			r.Try(func() { ruleNoRepeatedConstructorCall(w, r, "R03.9") })
+			r.Rule("R03.10", 3, "a transient instance cannot enter an instance table: the singleton table and the scope cache are written only by setSingleton / setInstance and their private halves, under the lifetime of the descriptor being stored")
+			r.Try(func() { ruleWhoWritesTables(w, r, "R03.10", "R03.10", la) })
 			r.Rule("R03.7", 1, "no recycled storage on the resolution path (no sync.Pool)")
 			r.Try(func() { ruleNoPooledInvocationState(w, r, "R03.7") })
 		})
@@ -445,6 +451,10 @@ func init() {
 			r.Try(func() { ruleDependenciesUnfiltered(w, r, "R05.10") })
 			r.Rule("R05.14", 1, "the cycle check sees the current registrations: whatever Build keeps on the collection is invalidated by every function that changes a registry view")
 			r.Try(func() { ruleBuildCachesInvalidated(w, r, "R05.14") })
+			r.Rule("R05.15", 3, "the graph component answers correctly after a rejected add: the rollback restores the previous state (a shallow snapshot of the node table leaves the rejected provider on the shared node)")
+			r.Try(func() { ruleRollback(w, r, "R05.15") })
+			r.Rule("R05.16", 1, "the registrations checked for cycles are the registrations the provider serves: one critical section of the collection per Build")
+			r.Try(func() { ruleBuildOneCriticalSection(w, r, "R05.16") })
 			r.Rule("R05.11", 1, "the edge table and the nodes' own dependency lists describe the same edges")
 			r.Try(func() { ruleEdgesAgreeWithNodeLists(w, r, "R05.11") })
 		})
@@ -481,6 +491,10 @@ func init() {
 			r.Try(func() { ruleBuildCachesInvalidated(w, r, "R06.13") })
 			r.Rule("R06.14", 1, "what a registration yields does not depend on what was registered before it: the descriptors derived for one constructor are registered all or none")
 			r.Try(func() { ruleFamilyRegisteredWhole(w, r, "R06.14") })
+			r.Rule("R06.15", 1, "a second Build of the same collection sees the same registrations: no in-place slice operation (slices.DeleteFunc/Compact/…, x[:0] filter) is applied to a slice its function did not build (a descriptor's dependency list is shared with the analysis cache and read again by the next Build)")
+			r.Try(func() { ruleNoInPlaceOnShared(w, r, "R06.15") })
+			r.Rule("R06.16", 4, "the graph component stays sortable after a removal: a deleted node is swept out of every edge list, every occurrence of it (a node that lists it twice must not keep a dangling edge)")
+			r.Try(func() { ruleDeletedNodesUnlinked(w, r, "R06.16") })
 			r.Rule("R06.9", 1, "the edge table and the nodes' own dependency lists describe the same edges")
 			r.Try(func() { ruleEdgesAgreeWithNodeLists(w, r, "R06.9") })
 		})
